@@ -276,14 +276,16 @@ func primGrid(r *hlib.Rand) {
 		}
 		primCase([]string{"al:" + strconv.Itoa(n), "rb:" + hexN(r, pad)}, true)
 		if n >= 0 {
-			primCase([]string{"cal:" + strconv.Itoa(n)}, true)
+			primCase([]string{"cal:" + strconv.Itoa(n), "rb:" + hexN(r, pad)}, true)
+			primCase([]string{"cal:" + strconv.Itoa(n + 1), "rb:" + hexN(r, pad)}, false)
 		}
 	}
 	// the decoder's plausibility guards on array lengths: 2·MaxUint16 and the remaining bytes
 	primCase([]string{"al:131070", "rb:" + hexN(r, 131070)}, true)
 	primCase([]string{"al:131071", "rb:" + hexN(r, 131071)}, false)
 	primCase([]string{"al:10", "rb:" + hexN(r, 9)}, false)
-	primCase([]string{"al:-2"}, true)
+	primCase([]string{"al:-2"}, false)
+	primCase([]string{"sa:" + strings.Repeat("_,", 4) + "_"}, true)
 	// push/pop fields around bodies of the sizes where the varint length changes width
 	for _, n := range []int{0, 1, 62, 63, 64, 65, 8190, 8191, 8192, 8193} {
 		for _, p := range []string{"pl", "pc0", "pc1", "pv:0", "pv:5", "pv:100000", "pv:-1"} {
